@@ -50,7 +50,7 @@ CLAIMED = {
                  ' CLOSED corollaries in the list denotation: matmul/add/rmul/truediv_den_closed.'),
         'note': ('Trusted: Lean kernel + standard axioms; encoder/translator; ArithSem laws (composition denotes the '
                  'composite, sums add, a lazy inverse of an invertible operand inverts — F13 is the failure of this law for '
-                 'singular diagonals and is a listed known finding of C01).  Negation of a sum is checked differentially only.'),
+                 'singular diagonals and is a listed known finding of C01).'),
         'technique': 'Lean 4 proof (case analysis over the dunder dispatch) + kernel-checked source tables + differential correspondence',
         'design_ref': '§5 C02',
     },
